@@ -560,10 +560,10 @@ fn big_index_lost_hunk(report: &mut Report) {
 pub fn run_c10(tier: &str, seed: u64, report: &mut Report) {
     let thorough = tier == "thorough";
     big_index_lost_hunk(report);
-    let n_scen = if thorough { 10 } else { 2 };
+    let n_scen = if thorough { 10 } else { 3 };
     for sidx in 0..n_scen {
         let case_seed = seed.wrapping_mul(2971215073).wrapping_add(sidx as u64);
-        let (sc, case_id) = if sidx == 1 { report.hit("directed:open-version-over-four-hunk-predecessor"); scenario_open_directed(report, "dmg-prefix") } else if sidx % 2 == 1 { scenario_open(case_seed, report, "dmg-prefix") } else { scenario(case_seed, report, "dmg-prefix") };
+        let (sc, case_id) = if sidx == 1 { report.hit("directed:open-version-over-four-hunk-predecessor"); scenario_open_directed(report, "dmg-prefix") } else if sidx == 2 { report.hit("directed:tail-started-version"); scenario_tail_started(report, "dmg-prefix") } else if sidx % 2 == 1 { scenario_open(case_seed, report, "dmg-prefix") } else { scenario(case_seed, report, "dmg-prefix") };
         let mut rng = Rng::new(case_seed ^ 0x10);
         // interrupted versions (head, no tail): what they restore to BEFORE the damage
         let pre_map0 = state_map(&sc.pre_state);
